@@ -40,10 +40,23 @@ SCHEMAS = {
     "core.person__0.1.0": ("core.person", {"name": "Jane Doe"}),
     "core.org__0.1.0": ("core.org", {"name": "Org"}),
 }
-SEGS = ["a", "b", "c", "d", "x", "metadorx", "xmetador_y", "meta"]
+SEGS = ["a", "b", "c", "d", "x", "metadorx", "xmetador_y", "meta", "A", "0d", "~t", "Mb"]
 RES_SEGS = ["metador_x", "metador_meta_", "metador_meta_d", "metador_container", "metador_"]
 VALUES = ["i:0", "i:1", "i:7", "i:42"]
 ATTR_KEYS = ["k", "m"]
+
+
+# compound user operations: a loop over a lazily iterated group whose body mutates the group
+#   ["each_del", cwd, mode]            for k in <iteration of g>: del g[k]
+#   ["each_detach", cwd, schema, mode] for k, v in <iteration of g>: del v.meta[schema]
+#   ["each_move", cwd, suffix, mode]   for k in <iteration of g>: g.move(k, k + suffix)
+# mode: "iter" (for k in g), "keys" (g.keys()), "items" (g.items()).  Plain h5py snapshots the names
+# when the iteration starts (GroupIter / KeysView), so the reference semantics is "the body runs once
+# for every child present at loop start, in name order"; a failing body is caught and the loop goes on.
+# Not included: visit/visititems callbacks that mutate -- HDF5 refuses to unlink inside the group
+# being visited ("Target already protected"), so that form has no stable plain-tree semantics.
+COMPOUND = ("each_del", "each_detach", "each_move")
+MODES = ("iter", "keys", "items")
 
 
 def reserved(path: str) -> bool:
@@ -59,13 +72,31 @@ def op_paths(op) -> List[str]:
         return [op[1], op[2], op[3]]
     if k == "copyinto":
         return [op[1], op[2], op[3]] + list(op[4])
-    if k in ("attach", "detach"):
+    if k in ("attach", "detach") or k in COMPOUND:
         return [op[1]]
     raise ValueError(k)
 
 
 def is_user_data_op(op) -> bool:
     return op[0] not in ("attach", "detach", "get") and not any(reserved(p) for p in op_paths(op))
+
+
+def expand_compound(op, keys: Optional[List[str]]) -> List[list]:
+    """The sequence of plain operations a compound operation stands for, given the names the
+    group lists at loop start (None: the group cannot be entered).  Always ends with a lookup
+    of the group itself, which carries the result class of entering the loop."""
+    cwd = op[1]
+    out: List[list] = []
+    base = norm(cwd)
+    for k in sorted(keys or []):
+        if op[0] == "each_del":
+            out.append(["del", cwd, k])
+        elif op[0] == "each_move":
+            out.append(["move", cwd, k, k + op[2]])
+        else:
+            out.append(["detach", absname(base + [k]), op[2]])
+    out.append(["get", cwd, "/"])
+    return out
 
 
 # ---------------------------------------------------------------------------- path helpers
@@ -181,6 +212,26 @@ def gen_history(rng, nops: int, p_reserved: float = 0.12) -> List[list]:
 
         r = rng.random()
         op: Optional[list] = None
+        if rng.random() < 0.07:
+            big = [g for g in groups if sum(1 for p in mir.nodes if p[:-1] == g and p) >= 2] or groups
+            cg = list(rng.choice(big))
+            kind = rng.choice(COMPOUND)
+            if kind == "each_del":
+                op = ["each_del", absname(cg), rng.choice(MODES)]
+                for p in [p for p in mir.nodes if p and p[:-1] == tuple(cg)]:
+                    mir.rm(p)
+            elif kind == "each_move":
+                op = ["each_move", absname(cg), "2", rng.choice(MODES)]
+                for p in sorted(p for p in mir.nodes if p and p[:-1] == tuple(cg)):
+                    mir.cp(p, p[:-1] + (p[-1] + "2",), move=True)
+            else:
+                sc = rng.choice(list(SCHEMAS))
+                op = ["each_detach", absname(cg), sc, rng.choice(MODES)]
+                mir.meta = {(q, s2) for (q, s2) in mir.meta if not (q[:-1] == tuple(cg) and s2 == sc)}
+            if rng.random() < 0.08:
+                op[1] = _reserved_path(rng, mir)
+            ops.append(op)
+            continue
         if r < 0.12:
             t = fresh()
             op = ["mkgrp", cwds, _spell(rng, cwd, t)]
@@ -319,6 +370,8 @@ def classify(e: BaseException) -> str:
 def apply_container(m, op):
     from metador_core.plugins import schemas
     k = op[0]
+    if k in COMPOUND:
+        return run_compound(lambda p: m[p], op, container=True)
     if k == "attach":
         name, kw = SCHEMAS[op[2]]
         node = m[op[1]]
@@ -371,16 +424,50 @@ def _apply_group(g, lookup, op, container: bool):
         raise ValueError(k)
 
 
+def run_compound(lookup, op, container: bool) -> Dict[str, Any]:
+    """Run the loop with the *lazy* iteration of the group object; returns visited names and the
+    result class of every body execution."""
+    g = lookup(op[1])
+    if not hasattr(g, "keys") or _is_ds(g):
+        raise TypeError("not a group")
+    mode = op[-1]
+    if mode == "iter":
+        it = ((k, None) for k in g)
+    elif mode == "keys":
+        it = ((k, None) for k in g.keys())
+    else:
+        it = g.items()
+    visited, sub = [], []
+    for k, v in it:
+        visited.append(k)
+        try:
+            if op[0] == "each_del":
+                del g[k]
+            elif op[0] == "each_move":
+                g.move(k, k + op[2])
+            elif container:
+                node = v if v is not None else g[k]
+                del node.meta[SCHEMAS[op[2]][0]]
+            sub.append("ok")
+        except (vlib.CaseTimeout, ProbeTimeout):
+            raise
+        except Exception as e:  # noqa: BLE001
+            sub.append(classify(e))
+    return {"visited": visited, "sub": sub}
+
+
 def apply_plain(f, op):
+    if op[0] in COMPOUND:
+        return run_compound(lambda p: f[p], op, container=False)
     g = f[op[1]]
     _apply_group(g, lambda p: f[p], op, container=False)
 
 
-def observe_listings(m, view: Dict[str, list]) -> Dict[str, Any]:
-    """Everything the wrapper lists, at every user group."""
+def observe_listings(m, view: Dict[str, list], only=None) -> Dict[str, Any]:
+    """Everything the wrapper lists, at every user group (or at the groups in `only`)."""
     out = {}
     for name, ent in view.items():
-        if ent[0] != "G" or reserved(name):
+        if ent[0] != "G" or reserved(name) or (only is not None and name not in only):
             continue
         g = m[name]
         o: Dict[str, Any] = {}
@@ -762,19 +849,30 @@ def run_history(task) -> Dict[str, Any]:
                 env["reopen"] = reopen
                 for i, op in enumerate(ops):
                     before = env["rawdump"]
-                    cls, err = "ok", None
+                    cls, err, info = "ok", None, None
                     try:
-                        apply_container(env["m"], op)
+                        info = apply_container(env["m"], op)
                     except vlib.CaseTimeout:
                         raise
                     except Exception as e:  # noqa: BLE001
                         cls, err = classify(e), f"{type(e).__name__}: {e}"[:160]
                     raw_now = dump_tree(env["raw"])
                     view = dump_tree(env["m"])
-                    lst = observe_listings(env["m"], view)
+                    # listings: everywhere at the last step (and in thorough runs), otherwise at the
+                    # root, the groups the operation names and their parents
+                    only = None
+                    if task.get("light") and i != len(ops) - 1:
+                        only = {"/"}
+                        for ps in op_paths(op):
+                            if not reserved(ps):
+                                segs = resolve(norm(op[1]) if op[0] not in ("attach", "detach") else [], ps)
+                                only |= {absname(segs), absname(segs[:-1])}
+                    lst = observe_listings(env["m"], view, only)
                     env["rawdump"], env["view"] = raw_now, view
                     step = {"cls": cls, "err": err, "view": view, "listings": lst,
                             "raw_changed": raw_now != before}
+                    if info:
+                        step.update(info)
                     # oracle: reserved path => refused, raw unchanged
                     if any(reserved(p) for p in op_paths(op)):
                         if cls == "ok" or raw_now != before:
@@ -801,12 +899,16 @@ def run_history(task) -> Dict[str, Any]:
                                                 "at": gname, "got": [o["keys"], o["len"]], "want": kids})
                     # oracle (c): plain file in lock-step
                     if is_user_data_op(op):
-                        pcls = "ok"
+                        pcls, pinfo = "ok", None
                         try:
-                            apply_plain(plain, op)
+                            pinfo = apply_plain(plain, op)
                         except Exception:  # noqa: BLE001
                             pcls = "fail"
                         step["plain_cls"] = pcls
+                        if pinfo and info and pinfo["visited"] != info["visited"] and not env.get("plain_off"):
+                            out["viol"].append({"kind": "iteration-cut", "method": {"iter": "__iter__"}.get(op[-1], op[-1]),
+                                                "step": i, "op": op, "visited": info["visited"],
+                                                "plain_visited": pinfo["visited"]})
                     pview = dump_tree(plain) if not env.get("plain_off") else view
                     if pview != view:
                         env["plain_off"] = True
@@ -876,16 +978,25 @@ def model_view(tree: list) -> Dict[str, list]:
     return out
 
 
-def compare_with_model(ops, mres, got) -> List[dict]:
-    """Disagreements between the model's prediction and one implementation run."""
+def compare_with_model(ops, mres, got, spans) -> List[dict]:
+    """Disagreements between the model's prediction and one implementation run.  spans[i] =
+    (a, b, names): operation i of the history is the model steps a..b-1 (a compound operation is
+    the sequence of its body executions over `names`, then the lookup of the group)."""
     dis: List[dict] = []
     msteps, mraw, mplain = mres
-    for i, (ms, st) in enumerate(zip(msteps, got["steps"])):
+    for i, ((a, b, names), st) in enumerate(zip(spans, got["steps"])):
+        ms = msteps[b - 1]
         mcls, mview, mlst = ms[0], model_view(ms[1]), ms[2]
         ok = (mcls == st["cls"]) or (mcls == "late" and st["cls"] in ("ok", "fail"))
+        if names is not None and st["cls"] == "ok":
+            msub = [msteps[j][0] for j in range(a, b - 1)]
+            if st.get("visited") != names:
+                dis.append({"step": i, "op": ops[i], "what": "names visited by the loop", "model": names, "impl": st.get("visited")})
+            elif any(not (x == y or (x == "late" and y in ("ok", "fail"))) for x, y in zip(msub, st.get("sub") or [])):
+                dis.append({"step": i, "op": ops[i], "what": "result classes of the loop body", "model": msub, "impl": st.get("sub")})
         if not ok:
             dis.append({"step": i, "op": ops[i], "what": "result class", "model": mcls, "impl": st["cls"], "err": st["err"]})
-        if mcls in ("guard", "fail") and st["raw_changed"]:
+        if mcls in ("guard", "fail") and st["raw_changed"] and names is None:
             dis.append({"step": i, "op": ops[i], "what": "refused operation changed the raw tree", "model": mcls})
         if mview != st["view"]:
             d = sorted(k for k in set(mview) | set(st["view"]) if mview.get(k) != st["view"].get(k))
@@ -894,7 +1005,8 @@ def compare_with_model(ops, mres, got) -> List[dict]:
         for gname, keys, visit, rev in mlst:
             o = st["listings"].get(gname)
             if o is None:
-                dis.append({"step": i, "what": "group missing in impl listings", "group": gname})
+                if i == len(spans) - 1:
+                    dis.append({"step": i, "what": "group missing in impl listings", "group": gname})
                 continue
             want_vi = sorted([n, (gname.rstrip("/") + "/" + n)] for n in visit)
             exp = {"keys": sorted(keys), "iter": sorted(keys), "len": len(keys), "visit": sorted(visit),
@@ -911,12 +1023,60 @@ def compare_with_model(ops, mres, got) -> List[dict]:
                 dis.append({"step": i, "what": f"absolute membership at {gname}", "impl": o.get("in_abs")})
         if len(dis) > 8:
             break
-    if not dis and got["raw_final"] is not None and len(got["steps"]) == len(msteps):
+    if not dis and got["raw_final"] is not None and len(got["steps"]) == len(spans):
         a, b = canon_raw_names_model(mraw), canon_raw_names_impl(got["raw_final"])
         if a != b:
             d = sorted(set(a) ^ set(b))
             dis.append({"step": len(ops) - 1, "what": "final raw tree (names modulo UUIDs)", "differs_at": d[:8]})
     return dis
+
+
+def run_model_expanding(hists: List[List[list]]):
+    """Run the model on histories with compound operations: a compound operation is expanded with
+    the names the *model* lists at the group when the loop starts, so the model is run in rounds
+    (one more compound operation of every history resolved per round)."""
+    n = len(hists)
+    exp: List[List[list]] = [[] for _ in range(n)]
+    spans: List[List[tuple]] = [[] for _ in range(n)]
+    pos = [0] * n
+    res: List[Any] = [None] * n
+    rounds = 0
+    while True:
+        waiting = []
+        for h in range(n):
+            ops = hists[h]
+            while pos[h] < len(ops) and ops[pos[h]][0] not in COMPOUND:
+                spans[h].append((len(exp[h]), len(exp[h]) + 1, None))
+                exp[h].append(ops[pos[h]])
+                pos[h] += 1
+            if pos[h] < len(ops):
+                waiting.append(h)
+        todo = waiting if rounds else list(range(n))
+        if rounds and not waiting:
+            break
+        idx = [h for h in todo if exp[h]]
+        out = vlib.run_model("c08", [exp[h] for h in idx]) if idx else []
+        for h, r in zip(idx, out):
+            res[h] = r
+        for h in waiting:
+            op = hists[h][pos[h]]
+            keys = None
+            if not reserved(op[1]):
+                want = absname(norm(op[1]))
+                if exp[h]:
+                    for gname, ks, _vis, _rev in res[h][0][-1][2]:
+                        if gname == want:
+                            keys = sorted(ks)
+                elif want == "/":
+                    keys = []
+            body = expand_compound(op, keys)
+            spans[h].append((len(exp[h]), len(exp[h]) + len(body), keys))
+            exp[h] += body
+            pos[h] += 1
+        rounds += 1
+        if not waiting:
+            break
+    return exp, spans, res, rounds
 
 
 # ---------------------------------------------------------------------------- main
